@@ -1077,6 +1077,13 @@ def symbolic_iter(interp, st, x: V):
         interp.ctx.assume_note("captured collections (free variables of closures) are iterable sequences")
         yield st, ("ok", V("iter", SeqIter(interp.term(st, x), elem_in_D=False)))
         return
+    if x.kind == "ref" and isinstance(st.heap[x.d], HDict) and st.heap[x.d].pairs is None:
+        # a symbolic dict built by the unit: iteration yields its keys in insertion order
+        h = st.heap[x.d]
+        it = SeqIter(interp.ctx.fresh_val("dictkeys"), elem_fn=lambda s, i, karr=h.karr: V("sym", t=z3.Select(karr, i)))
+        it.len_term = h.kn
+        yield st, ("ok", V("iter", it))
+        return
     raise Unsupported(f"iter of {x!r}")
 
 
@@ -1297,6 +1304,23 @@ def b_pairwise(interp, st, args, kwargs):
     v = V("sym", t=interp.ctx.fresh_val("pairwise"))
     v.tag = ("pairwise", args[0])
     yield st, ("ok", v)
+
+
+_prev_next = HANDLERS.get(builtins.next)
+
+
+@handler(builtins.next)
+def b_next(interp, st, args, kwargs):
+    if args and args[0].kind == "gen" and args[0].tag and args[0].tag[0] == "genexp":
+        from . import loops
+        x = args[0].tag[3]
+        if loops.as_concrete_items(interp, st, x) is None and x.kind != "gen":
+            yield from loops.next_of_genexp(interp, st, args[0], args[1] if len(args) > 1 else None)
+            return
+    if _prev_next is not None:
+        yield from _prev_next(interp, st, args, kwargs)
+        return
+    raise Unsupported("next() on this value")
 
 
 @handler(builtins.reversed)
